@@ -39,7 +39,7 @@ theorem accept_implies_scope {σ : Type} (H : Bytes → Bytes) (cfg : Config) (P
     ∃ a ak, authOf H cfg req = .ok a ∧
       splitOn 0x2F a.credential = [ak, fmtDate (utcDate a.timestamp), cfg.region, cfg.service, b!"aws4_request"] := by
   obtain ⟨a, ha⟩ := authOf_ok_of_validate P s (Or.inl ⟨r, h⟩)
-  obtain ⟨_, _, _, _, hok⟩ := validate_of_authOf_ok P s ha
+  obtain ⟨_, _, _, _, hok⟩ := c04_validate_of_authOf_ok P s ha
   obtain ⟨resp, hresp⟩ := hok r h
   have hp := prevalidate_ok_of_validateSignature H P s a cfg.region cfg.service cfg.now
     (Or.inl ⟨resp, hresp⟩)
@@ -57,7 +57,7 @@ theorem provider_args {σ : Type} (H : Bytes → Bytes) (cfg : Config) (P : Prov
             region := cfg.region, service := cfg.service } := by
   have hne : (validate H cfg P s req).calls ≠ [] := List.ne_nil_of_mem hc
   obtain ⟨a, ha⟩ := authOf_ok_of_validate P s (Or.inr hne)
-  obtain ⟨hcalls, _, _, _, _⟩ := validate_of_authOf_ok P s ha
+  obtain ⟨hcalls, _, _, _, _⟩ := c04_validate_of_authOf_ok P s ha
   rw [hcalls] at hc hne
   have hp := prevalidate_ok_of_validateSignature H P s a cfg.region cfg.service cfg.now (Or.inr hne)
   obtain ⟨ak, hak⟩ := (scopeCheck_ok_iff a cfg.region cfg.service).mp
@@ -73,7 +73,7 @@ theorem foreign_scope_refused {σ : Type} (H : Bytes → Bytes) (cfg : Config) (
     (hs : scopeCheck a cfg.region cfg.service ≠ .ok ()) :
     (∃ k, (validate H cfg P s req).out = .err k ∧ (k = .SignatureDoesNotMatch ∨ k = .IncompleteSignature)) ∧
     (validate H cfg P s req).calls = [] := by
-  obtain ⟨hcalls, _, herr, _, _⟩ := validate_of_authOf_ok P s ha
+  obtain ⟨hcalls, _, herr, _, _⟩ := c04_validate_of_authOf_ok P s ha
   have hk : ∃ k, prevalidate a cfg.region cfg.service cfg.now = .err k ∧
       (k = .SignatureDoesNotMatch ∨ k = .IncompleteSignature) := by
     rcases prevalidate_cases a cfg.region cfg.service cfg.now with hp | hp
